@@ -476,3 +476,116 @@ func ruleDWRITE(p *Program, r *Reporter) {
 	}
 	_ = sort.Strings
 }
+
+// dynTypeKnown: on every path to `at`, interface value v has passed a successful
+// comma-ok assertion (type-switch arm) to a type satisfying pred.
+func (fc *flowCtx) dynTypeKnown(v ssa.Value, at ssa.Instruction, pred func(types.Type) bool) bool {
+	okEdge := func(pr, succ *ssa.BasicBlock) bool {
+		facts := factsAt(pr)
+		if len(pr.Instrs) > 0 {
+			if iff, ok := pr.Instrs[len(pr.Instrs)-1].(*ssa.If); ok && len(pr.Succs) == 2 && pr.Succs[0] != pr.Succs[1] {
+				facts = append(facts, edgeFact{iff.Cond, pr.Succs[0] == succ, pr})
+			}
+		}
+		for _, f := range facts {
+			c, truth := normFact(f)
+			if !truth {
+				continue
+			}
+			ex, ok := c.(*ssa.Extract)
+			if !ok || ex.Index != 1 {
+				continue
+			}
+			ta, ok := ex.Tuple.(*ssa.TypeAssert)
+			if !ok || !ta.CommaOk || !pred(ta.AssertedType) {
+				continue
+			}
+			if fc.valEquiv(ta.X, v, ta, at, 0) {
+				return true
+			}
+		}
+		return false
+	}
+	for d := at.Block(); d != nil; d = d.Idom() {
+		if len(d.Preds) == 0 {
+			continue
+		}
+		all := true
+		for _, pr := range d.Preds {
+			if !okEdge(pr, d) {
+				all = false
+				break
+			}
+		}
+		if all {
+			return true
+		}
+	}
+	return false
+}
+
+// sameObject: two result values denote the same object (same SSA value, or
+// Interface() of the same reflect.Value).
+func sameObject(a, b ssa.Value) bool {
+	if a == b {
+		return true
+	}
+	ca, ok1 := a.(*ssa.Call)
+	cb, ok2 := b.(*ssa.Call)
+	if ok1 && ok2 {
+		sa, sb := ca.Call.StaticCallee(), cb.Call.StaticCallee()
+		if sa != nil && sa == sb && sa.Pkg != nil && sa.Pkg.Pkg.Path() == "reflect" && sa.Name() == "Interface" && len(ca.Call.Args) == 1 {
+			return sameValueLoose(ca.Call.Args[0], cb.Call.Args[0]) || ca.Call.Args[0] == cb.Call.Args[0]
+		}
+	}
+	return false
+}
+
+// ruleA3DISTINCT: the (new value, difference) pair returned by the mutation
+// helpers never is one mutable object in both positions: the first is stored
+// in the model, the second is accumulated and later merged in place.
+func ruleA3DISTINCT(p *Program, r *Reporter) {
+	const id = "A3-DISTINCT"
+	n := 0
+	refFree := func(t types.Type) bool { return isRefFree(t, 0) }
+	for _, fn := range p.srcFuncs {
+		if pkgOf(fn) != "updates" || fn.Parent() != nil || inPlaceArgOf(fn) < 0 {
+			continue
+		}
+		if fn.Signature.Results().Len() != 2 {
+			continue
+		}
+		if _, isIface := fn.Signature.Results().At(1).Type().Underlying().(*types.Interface); !isIface {
+			continue
+		}
+		fc := newFlowCtx(fn)
+		for _, b := range fn.Blocks {
+			ret, ok := b.Instrs[len(b.Instrs)-1].(*ssa.Return)
+			if !ok || isRecoverBlock(b) {
+				continue
+			}
+			n++
+			a, d := retValue(ret, 0), retValue(ret, 1)
+			if !sameObject(a, d) || isNilConst(a) {
+				r.Ob(id, funcName(fn), "new value and difference", retPos(ret, fn), true, false, "two distinct values")
+				continue
+			}
+			// only an *input* object handed back twice is in scope; results of the arithmetic
+			// helpers are numbers by the ValidateMutation gate (arithmetic on a set column is
+			// rejected before mutate runs — checked by reproduction, see DESIGN.md §7 #17)
+			src := map[*ssa.Parameter]bool{}
+			reflectSrcParams(a, map[ssa.Value]bool{}, 0, src)
+			if len(src) == 0 {
+				r.Ob(id, funcName(fn), "new value and difference", retPos(ret, fn), true, false, "result of a helper call, not one of the inputs")
+				continue
+			}
+			ok2 := fc.dynTypeKnown(a, ret, refFree)
+			r.Ob(id, funcName(fn), "new value and difference", retPos(ret, fn), ok2, true,
+				ifs(ok2, "the same value is returned twice only where its dynamic type is a number/string/bool (immutable)",
+					"the same slice/map is returned both as the column's new value (stored in the model) and as the difference (accumulated and merged in place by the next mutation of that column): a second mutation of the column corrupts both"))
+		}
+	}
+	if n < 10 {
+		r.Anchor(id, fmt.Sprintf("mutation helpers: %d returns, expected >= 10", n))
+	}
+}
